@@ -542,6 +542,7 @@ def run_job(job: dict) -> JobResult:
                 # the order of that tail is not an observation
                 nq = obs.get("nlog_q", len(obs["log"]))
                 res.nontrivial.add(digest((cfg_class(cfg), obs["log"][:nq], sorted(obs["log"][nq:]))))
+            return sym is not None  # (lets explore() abandon a configuration whose broken run no longer replays deterministically)
 
         stats = explore(lambda ctx, cfg=cfg: run_one(ctx, cfg), bound=cfg["bound"], check=check, max_runs=100000)
         res.transitions += stats["points"]
